@@ -15,6 +15,10 @@ CHECKS = {
          "For all 96 operations, generated typed outputs (plus 0-3 extra headers, optional status override) returned by a scripted backend are decoded by aws-sdk-s3 and must equal what was returned; wire status must be the model's code (206 with Content-Range) or the override; extra headers must be on the wire. CompleteMultipartUpload is run on a paused tokio clock for every completion delay 0..220 ms (thorough 0..450) x {ok, late error}: body = declaration, whitespace only, the same document as the undelayed run; header-bound members in declared trailers; late errors as <Error> documents.",
          "Trusted: aws-sdk-s3 as decoder, Smithy model for status codes/bindings, tokio's paused clock. Number/timing of whitespace frames not asserted.",
          "DESIGN.md §4 C03"),
+ "C04": ("proptest-driven search: scripted backend errors checked against the documented error tables read as data and through aws-sdk-s3; totality fuzzing with structure-aware random requests and grammar-aware mutations of valid requests under catch_unwind, with an independent XML reader as error-document oracle",
+         "(A) Every code of data/s3_error_codes.json and the Smithy Error$Code list, plus custom codes, with XML-hostile messages / request ids, optional status override and attached headers, returned by the backend: the wire response is a well-formed <Error> document with exactly those fields, the documented (or overriding) status and the headers, and the SDK extracts the same code and message. (B) Structure-aware random requests (method tokens, all URI forms, bad escapes, long paths, arbitrary header bytes incl. obs-text, duplicated Host/Authorization/Content-Length/Type, framed bodies) and 1-3 grammar-aware mutations of valid requests for all operations (SDK captures, POST forms, chunk-signed uploads) under all service configurations and backend scripts: S3Service::call never panics, never returns Err, and every status >= 400 carries a well-formed error document.",
+         "Trusted: xmlparser-based error document reader, both AWS status sources (either is accepted; N/A = any error status). Don't-cares: status of custom/unmodelled codes without override, Content-Type of error responses with backend headers. libFuzzer target fuzz/http_request extends (B) in the thorough tier.",
+         "DESIGN.md §4 C04"),
  "C05": ("proptest-driven search; differential verdict oracle against a reference SigV4 signer/verifier written from the AWS specification (validated on the documentation examples) and against aws-sigv4 as second signer; single-component mutations and canonical-equivalent metamorphic rewrites",
          "Generated requests (method, any UTF-8 key, query multiset, header multiset incl. inner whitespace / repeated names, body, payload mode, HTTP/1.1 or HTTP/2 form) signed by the reference signer or aws-sigv4, then left honest, mutated in one signed component (header value/removal, query pair, path byte, method, body byte, signature digit, access key, scope date/region/service, x-amz-date, signed-header list) or rewritten canonical-equivalently (header order, edge whitespace, percent-encoding spelling, query order, unsigned header added): s3s's verdict must equal the reference verifier's, accepted requests are attributed to the scope's key/region/service, refused ones produce an error before any access hook or backend call.",
          "Trusted: reference signer/verifier (self-tested at start-up against the 4 S3 documentation examples + presign + chunked examples). Don't-cares: freshness of x-amz-date, algorithm token, raw '+' in query, non-normal-form paths, unsigned x-amz-* headers, value order of repeated query names under non-unreserved characters.",
